@@ -111,3 +111,98 @@ def op_load_file(c):
     except Exception as e:
         return errobs(e)
     return [0, 0] + obs_value(t[3], tuple(t[0]) >= (3, 0))
+
+
+def _plain_from_spec(s):
+    """rebuild a Python value from the JSON spec used by tools/props/c14.py"""
+    k = s[0]
+    if k == "none": return None
+    if k == "true": return True
+    if k == "false": return False
+    if k == "ell": return Ellipsis
+    if k == "stop": return StopIteration
+    if k == "int": return int(s[1])
+    if k == "float": return struct.unpack("<d", struct.pack("<Q", s[1]))[0]
+    if k == "complex": return complex(struct.unpack("<d", struct.pack("<Q", s[1]))[0], struct.unpack("<d", struct.pack("<Q", s[2]))[0])
+    if k == "bin": return bytes(s[1])
+    if k == "text": return bytes(s[1]).decode("utf-8", "surrogatepass")
+    if k == "tuple": return tuple(_plain_from_spec(x) for x in s[1])
+    if k == "list": return [_plain_from_spec(x) for x in s[1]]
+    if k == "set": return set(_plain_from_spec(x) for x in s[1])
+    if k == "frozenset": return frozenset(_plain_from_spec(x) for x in s[1])
+    if k == "dict": return dict((_plain_from_spec(a), _plain_from_spec(b)) for a, b in s[1])
+    raise ValueError(k)
+
+
+def _spec_from_plain(v):
+    """the value as the model sees it: sets in iteration order, floats by bit pattern"""
+    if v is None: return ["none"]
+    if v is True: return ["true"]
+    if v is False: return ["false"]
+    if v is Ellipsis: return ["ell"]
+    if v is StopIteration: return ["stop"]
+    if isinstance(v, int): return ["int", str(int(v))]
+    if isinstance(v, float): return ["float", fbits(v)]
+    if isinstance(v, complex): return ["complex", fbits(v.real), fbits(v.imag)]
+    if isinstance(v, bytes): return ["bin", list(v)]
+    if isinstance(v, str): return ["text", list(v.encode("utf-8", "surrogatepass"))]
+    if isinstance(v, tuple): return ["tuple", [_spec_from_plain(x) for x in v]]
+    if isinstance(v, list): return ["list", [_spec_from_plain(x) for x in v]]
+    if isinstance(v, frozenset): return ["frozenset", [_spec_from_plain(x) for x in v]]
+    if isinstance(v, set): return ["set", [_spec_from_plain(x) for x in v]]
+    if isinstance(v, dict): return ["dict", [[_spec_from_plain(a), _spec_from_plain(b)] for a, b in v.items()]]
+    raise TypeError(type(v))
+
+
+def _floats_in(v, acc):
+    if isinstance(v, float):
+        acc[fbits(v)] = list(repr(v).encode())
+    elif isinstance(v, complex):
+        acc[fbits(v.real)] = list(repr(v.real).encode()); acc[fbits(v.imag)] = list(repr(v.imag).encode())
+    elif isinstance(v, (tuple, list, set, frozenset)):
+        for x in v: _floats_in(x, acc)
+    elif isinstance(v, dict):
+        for a, b in v.items(): _floats_in(a, acc); _floats_in(b, acc)
+
+
+def op_marsh_dumps(c):
+    """c = {"value": spec}: returns {"bytes": xdis.marsh.dumps(v), "seen": the value as iterated, "reprs": {bits: repr bytes},
+       "host_back": observation of the host's marshal.loads(dumps(v)), "orig": observation of v}"""
+    import marshal
+    import xdis.marsh as M
+    v = _plain_from_spec(c["value"])
+    out = {"seen": _spec_from_plain(v)}
+    reprs = {}
+    _floats_in(v, reprs)
+    out["reprs"] = sorted(reprs.items())
+    try:
+        b = M.dumps(v)
+        out["bytes"] = list(b)
+    except Exception as e:
+        out["err"] = type(e).__name__
+        return out
+    out["orig"] = obs_value(v, True)
+    try:
+        out["host_back"] = obs_value(marshal.loads(b), True)
+    except Exception as e:
+        out["host_err"] = type(e).__name__
+    return out
+
+
+def op_marsh_loads(c):
+    """c = {"bytes": [...]}: xdis.marsh.loads"""
+    import xdis.marsh as M
+    try:
+        v = M.loads(bytes(c["bytes"]))
+    except Exception as e:
+        return errobs(e)
+    if v is M._NULL:
+        return [0, 0]
+    return [0] + obs_value(v, True)
+
+
+def op_host_dumps(c):
+    """host marshal.dumps(v, version) for version 0 and 1 -> streams"""
+    import marshal
+    v = _plain_from_spec(c["value"])
+    return {"v0": list(marshal.dumps(v, 0)), "v1": list(marshal.dumps(v, 1)), "orig": obs_value(v, True)}
